@@ -50,11 +50,15 @@ public:
 };
 // emissions; the entry for (site 0, state 0) is a parameter "e00" so that parameter updates can be interleaved with queries
 class Emis : public HmmEmissionProbabilities, public AbstractParametrizable {
-  shared_ptr<const HmmStateAlphabet> alph_; VV e_;
+  shared_ptr<const HmmStateAlphabet> alph_; VV e_; mutable VV de_, d2e_; bool square_;   // square_: the entry (site 1, state 0) is e00^2, so the parameter acts on two sites
 public:
-  Emis(shared_ptr<const HmmStateAlphabet> alph, const VV& e) : AbstractParametrizable(""), alph_(alph), e_(e) { addParameter_(new Parameter("e00", e[0][0])); }
+  Emis(shared_ptr<const HmmStateAlphabet> alph, const VV& e, bool square = false) : AbstractParametrizable(""), alph_(alph), e_(e), de_(e.size(), vector<double>(e[0].size(), 0.0)), d2e_(de_), square_(square) { addParameter_(new Parameter("e00", e[0][0])); }
   Emis* clone() const override { return new Emis(*this); }
-  void fireParameterChanged(const ParameterList&) override { e_[0][0] = getParameterValue("e00"); }
+  void fireParameterChanged(const ParameterList&) override { e_[0][0] = getParameterValue("e00"); if (square_ && e_.size() > 1) e_[1][0] = e_[0][0] * e_[0][0]; }
+  void computeDEmissionProbabilities(std::string& variable) const override { for (auto& r : de_) for (auto& x : r) x = 0; if (variable == "e00") { de_[0][0] = 1; if (square_ && e_.size() > 1) de_[1][0] = 2 * e_[0][0]; } }
+  void computeD2EmissionProbabilities(std::string& variable) const override { for (auto& r : d2e_) for (auto& x : r) x = 0; if (variable == "e00" && square_ && e_.size() > 1) d2e_[1][0] = 2; }
+  const vector<double>& getDEmissionProbabilities(size_t pos) const override { return de_[pos]; }
+  const vector<double>& getD2EmissionProbabilities(size_t pos) const override { return d2e_[pos]; }
   const HmmStateAlphabet& hmmStateAlphabet() const override { return *alph_; }
   shared_ptr<const HmmStateAlphabet> getHmmStateAlphabet() const override { return alph_; }
   void setHmmStateAlphabet(shared_ptr<const HmmStateAlphabet> a) override { alph_ = a; }
@@ -137,6 +141,36 @@ extern "C" void verif_harness() {
       SYM_ASSERT_EQ(exp(g.getLogLikelihood()), tot, "log-sum algorithm: likelihood differs from the sum over hidden paths");
       checkPosteriors(g, acc, tot, E, "logsum");
     }
+  } else if (which == 3) {
+    // ---- derivatives of the log-likelihood with respect to an emission parameter acting on one or two sites, against the derivative of the path-enumeration polynomial ----
+    int L = __sym_choose("sites", 1, LMAX); const int n = 2; VV P(n, vector<double>(n)); vector<double> eq(n);
+#ifdef PARAM_AB
+    { double a = symd("a"), b = symd("b"); SYM_ASSUME(a > 0 && a < 1 && b > 0 && b < 1); P[0][0] = 1 - a; P[0][1] = a; P[1][0] = b; P[1][1] = 1 - b; eq[0] = b / (a + b); eq[1] = a / (a + b); }
+#else
+    { double u0 = sympos("w00"), u1 = sympos("w01"), v0 = sympos("w10"), v1 = sympos("w11");
+    P[0][0] = u0 / (u0 + u1); P[0][1] = u1 / (u0 + u1); P[1][0] = v0 / (v0 + v1); P[1][1] = v1 / (v0 + v1); eq[0] = P[1][0] / (P[0][1] + P[1][0]); eq[1] = P[0][1] / (P[0][1] + P[1][0]); }
+#endif
+    double th = sympos("e00"); int square = L > 1 ? __sym_choose("actsOnTwoSites", 0, 1) : 0;
+    VV E(L, vector<double>(n)); for (int i = 0; i < L; i++) for (int j = 0; j < n; j++) E[i][j] = (i == 0 && j == 0) ? th : ((i == 1 && j == 0 && square) ? th * th : sympos("e" + to_string(i) + to_string(j)));
+    vector<bool> isBp(L, false); vector<size_t> bps; for (int i = 1; i < L; i++) if (__sym_choose(("break" + to_string(i)).c_str(), 0, 1)) { isBp[i] = true; bps.push_back(i); }
+    auto al = make_shared<Alpha>(n); auto tr = make_shared<Trans>(al, P, eq); auto em = make_shared<Emis>(al, E, square != 0);
+    double tot; VV acc; enumerate(P, eq, E, isBp, tot, acc);
+#ifdef SYM_REPLAY
+    // native replay of a counterexample: derivatives of the enumeration polynomial by fourth-order finite differences (compared with the replay tolerance)
+    auto F = [&](double t) { VV E2 = E; E2[0][0] = t; if (square && L > 1) E2[1][0] = t * t; double tt; VV aa; enumerate(P, eq, E2, isBp, tt, aa); return tt; };
+    double hh = 1e-3 * th; double d1 = (-F(th + 2 * hh) + 8 * F(th + hh) - 8 * F(th - hh) + F(th - 2 * hh)) / (12 * hh), d2 = (-F(th + 2 * hh) + 16 * F(th + hh) - 30 * F(th) + 16 * F(th - hh) - F(th - 2 * hh)) / (12 * hh * hh);
+#else
+    double d1 = __sym_diff(tot, th), d2 = __sym_diff(d1, th);
+#endif
+    double wantD1 = d1 / tot, wantD2 = d2 / tot - (d1 / tot) * (d1 / tot);      // derivatives of log(tot)
+    int algo = __sym_choose("algorithm", 0, 1); int order = __sym_choose("secondFirst", 0, 1);
+    unique_ptr<HmmLikelihood> lik; if (algo == 0) { auto r = new RescaledHmmLikelihood(al, tr, em, ""); r->setBreakPoints(bps); lik.reset(r); } else { auto g = new LogsumHmmLikelihood(al, tr, em, ""); g->setBreakPoints(bps); lik.reset(g); }
+    double g2a = 0; if (order) g2a = lik->getSecondOrderDerivative("e00");
+    double g1 = lik->getFirstOrderDerivative("e00"), g2 = lik->getSecondOrderDerivative("e00");
+    SYM_ASSERT_EQ(g1, -wantD1, "first derivative of the (minus) log-likelihood differs from the derivative of the path-enumeration polynomial");
+    SYM_ASSERT_EQ(g2, -wantD2, "second derivative of the (minus) log-likelihood differs from the second derivative of the path-enumeration polynomial");
+    if (order) SYM_ASSERT_EQ(g2a, -wantD2, "second derivative queried before the first differs (answers depend on the order of earlier queries)");
+    SYM_ASSERT_EQ(lik->getFirstOrderDerivative("e00"), -wantD1, "first derivative changed after the second derivative was queried");
   } else {
     // ---- built-in transition models: rows sum to one, the equilibrium vector is stationary ----
     int model = __sym_choose("model", 0, 1); int n = __sym_choose("states", 2, 3);
